@@ -42,7 +42,8 @@ Qed.
 
 (* ---------- entries ---------- *)
 Definition same_kv (f : sentry -> sentry) : Prop :=
-  forall e, sid (f e) = sid e /\ skey (f e) = skey e /\ sval (f e) = sval e.
+  forall e, sid (f e) = sid e /\ skey (f e) = skey e /\ sval (f e) = sval e /\
+            sexpire (f e) = sexpire e /\ sweight (f e) = sweight e.
 
 Lemma get_ent_upd s id f id' :
   (forall e, sid (f e) = sid e) ->
@@ -62,8 +63,9 @@ Definition ext (s s' : store) : Prop :=
   (forall id e, get_ent s id = Some e ->
      exists e', get_ent s' id = Some e' /\ sid e' = sid e /\ skey e' = skey e /\ sval e' = sval e) /\
   (forall k id, map_get (smap s') k = Some id -> map_get (smap s) k = Some id) /\
-  (forall e', In e' (ents s') -> exists e, In e (ents s) /\ sid e = sid e') /\
-  (NoDup (map fst (smap s)) -> NoDup (map fst (smap s'))).
+  (forall e', In e' (ents s') -> exists e, In e (ents s) /\ sid e = sid e' /\ sexpire e = sexpire e' /\ sweight e = sweight e') /\
+  (NoDup (map fst (smap s)) -> NoDup (map fst (smap s'))) /\
+  scap s' = scap s.
 
 Lemma NoDup_keys_del (m : list (Z * Z)) k : NoDup (map fst m) -> NoDup (map fst (map_del m k)).
 Proof.
@@ -95,25 +97,27 @@ Proof. repeat split; auto. - intros id e H. exists e. auto. - intros e' H. exist
 
 Lemma ext_trans a b c : ext a b -> ext b c -> ext a c.
 Proof.
-  intros (N1 & C1 & E1 & M1 & I1 & D1) (N2 & C2 & E2 & M2 & I2 & D2). split; [congruence|]. split; [congruence|]. split; [|split; [|split; [|auto]]].
+  intros (N1 & C1 & E1 & M1 & I1 & D1 & P1) (N2 & C2 & E2 & M2 & I2 & D2 & P2). split; [congruence|]. split; [congruence|]. split; [|split; [|split; [|split; [auto|congruence]]]].
   - intros id e H. destruct (E1 id e H) as (e1 & G1 & A1 & B1 & V1).
     destruct (E2 id e1 G1) as (e2 & G2 & A2 & B2 & V2). exists e2. repeat split; congruence.
   - intros k id H. apply M1, M2, H.
-  - intros e' H. destruct (I2 e' H) as (e1 & H1 & S1). destruct (I1 e1 H1) as (e0 & H0 & S0).
-    exists e0. split; [exact H0|congruence].
+  - intros e' H. destruct (I2 e' H) as (e1 & H1 & S1 & X1 & W1). destruct (I1 e1 H1) as (e0 & H0 & S0 & X0 & W0).
+    exists e0. split; [exact H0|]. repeat split; congruence.
 Qed.
 
 Lemma ext_upd s id f : same_kv f -> ext s (upd_ent s id f).
 Proof.
-  intro Hf. split; [reflexivity|]. split; [reflexivity|]. split; [|split; [|split; [|auto]]].
+  intro Hf. split; [reflexivity|]. split; [reflexivity|]. split; [|split; [|split; [|split; [auto|reflexivity]]]].
   - intros id' e H. rewrite get_ent_upd by (intro; apply Hf). rewrite H.
-    destruct (sid e =? id); eexists; split; try reflexivity; try (repeat split; reflexivity); apply Hf.
+    destruct (sid e =? id); eexists; split; try reflexivity; try (repeat split; reflexivity).
+    destruct (Hf e) as (A & B & C & _). auto.
   - auto.
   - intros e' H. unfold upd_ent in H. cbn [ents set_ents] in H. apply in_map_iff in H.
-    destruct H as (e & <- & He). exists e. split; [exact He|]. destruct (sid e =? id); [symmetry; apply Hf|reflexivity].
+    destruct H as (e & <- & He). exists e. split; [exact He|].
+    destruct (sid e =? id); [destruct (Hf e) as (A & _ & _ & B & C); repeat split; congruence|repeat split; reflexivity].
 Qed.
 
-Ltac ext_field := split; [reflexivity|]; split; [reflexivity|]; split; [intros id0 e0 H0; exists e0; auto|split; [auto|split; [intros e0 H0; exists e0; auto|auto]]].
+Ltac ext_field := split; [reflexivity|]; split; [reflexivity|]; split; [intros id0 e0 H0; exists e0; auto|split; [auto|split; [intros e0 H0; exists e0; auto|split; [auto|reflexivity]]]].
 Lemma ext_pol s x : ext s (set_pol s x). Proof. ext_field. Qed.
 Lemma ext_whl s x : ext s (set_whl s x). Proof. ext_field. Qed.
 Lemma ext_rbuf s x : ext s (set_rbuf s x). Proof. ext_field. Qed.
@@ -122,7 +126,7 @@ Lemma ext_counts s h m : ext s (set_counts s h m). Proof. ext_field. Qed.
 Lemma ext_queue s x : ext s (set_queue s x). Proof. ext_field. Qed.
 Lemma ext_mapdel s k : ext s (set_smap s (map_del (smap s) k)).
 Proof.
-  split; [reflexivity|]. split; [reflexivity|]. split; [intros id0 e0 H0; exists e0; auto|split; [|split; [intros e0 H0; exists e0; auto|]]].
+  split; [reflexivity|]. split; [reflexivity|]. split; [intros id0 e0 H0; exists e0; auto|split; [|split; [intros e0 H0; exists e0; auto|split; [|reflexivity]]]].
   - intros k' id H. cbn [smap set_smap] in H. eapply map_get_del_sub, H.
   - cbn [smap set_smap]. apply NoDup_keys_del.
 Qed.
@@ -256,10 +260,10 @@ Definition Rinv (s : store) (L : Spec) : Prop :=
 
 Lemma Rinv_ext s s' L : Rinv s L -> ext s s' -> Rinv s' L.
 Proof.
-  intros (R & F & D) (N & C & E & M & I & DD). split; [|split; [|auto]].
+  intros (R & F & D) (N & C & E & M & I & DD & _). split; [|split; [|auto]].
   - intros k id H. destruct (R k id (M k id H)) as (e & G & Si & K & V).
     destruct (E id e G) as (e' & G' & S' & K' & V'). exists e'. repeat split; congruence.
-  - intros e' H. destruct (I e' H) as (e & He & Se). rewrite N, <- Se. apply F, He.
+  - intros e' H. destruct (I e' H) as (e & He & Se & _). rewrite N, <- Se. apply F, He.
 Qed.
 
 Lemma get_ent_sid s id e : get_ent s id = Some e -> sid e = id.
